@@ -184,7 +184,7 @@ namespace AIToolbox::POMDP {
     std::tuple<double, MDP::QFunction> FastInformedBound::operator()(const M & m, const SOSA & sosa, MDP::QFunction oldQ) {
         const auto & ir = [&]{
             if constexpr (IsModelEigen<M>) return m.getRewardFunction();
-            else return computeImmediateRewards(m);
+            else return MDP::computeImmediateRewards(m);
         }();
         auto newQ = MDP::QFunction(m.getS(), m.getA());
 
